@@ -53,6 +53,9 @@ type mWorld struct {
 	counts  []mEmit // child COUNT emissions
 	okRule  func(child int, id string, k int) (bool, string)
 	cntRule func(child int, sub string, k int) uint64
+	// per child: client EVENT / COUNT messages read from its inbound channel
+	gotEvents []atomic.Int64
+	gotCounts []atomic.Int64
 }
 
 func newMWorld() *mWorld {
@@ -165,6 +168,7 @@ func (c *mChild) ServeNostr(ctx context.Context, send chan<- mocrelay.ServerMsg,
 				if c.w.okRule == nil {
 					continue
 				}
+				c.w.gotEvents[c.idx].Add(1)
 				id := m.Event.ID
 				k := evSeen[id]
 				evSeen[id]++
@@ -196,6 +200,7 @@ func (c *mChild) ServeNostr(ctx context.Context, send chan<- mocrelay.ServerMsg,
 				if c.w.cntRule == nil {
 					continue
 				}
+				c.w.gotCounts[c.idx].Add(1)
 				sub := m.SubscriptionID
 				k := cntSeen[sub]
 				cntSeen[sub]++
@@ -333,6 +338,8 @@ func describeEmits(es []mEmit) []string {
 }
 
 func mkChildren(w *mWorld, n int) []mocrelay.Handler {
+	w.gotEvents = make([]atomic.Int64, n)
+	w.gotCounts = make([]atomic.Int64, n)
 	hs := make([]mocrelay.Handler, n)
 	for i := range hs {
 		hs[i] = &mChild{idx: i, w: w}
